@@ -224,9 +224,7 @@ def _fuse_stream(ctx, mod, n_inst):
             continue
         cases.append(f"({_fuse_lit(inst)}, {copt(obs, U.czl)})")
         meta.append(inst)
-    ok, di, df, raw = U.two_index_lists(ctx, ["OV.Rules.PadConv"],
-                                        f"Definition cases : list fuse_case := {clist(cases)}.\n"
-                                        "Definition dis_impl := fuse_dis false cases.\nDefinition dis_fixed := fuse_dis true cases.")
+    ok, di, df, raw = U.eval_cases(ctx, ["OV.Rules.PadConv"], "fuse_case", cases, "fuse_dis")
     if not ok:
         ctx.tie_broken("correspondence", f"{FAM}:fuse:model-evaluation", raw[-800:])
         return
@@ -249,6 +247,8 @@ def _norm_instance(rng, i):
     inst["strides"] = rng.choice([None, [rng.choice([1, 2, 3]) for _ in range(n)]])
     inst["dil"] = rng.choice([None, None, [1] * n, [rng.choice([1, 2]) for _ in range(n)], [2] * n])
     inst["xs"] = [rng.choice([5, 6, 7, 8, 9]) for _ in range(n)]
+    dl = inst["dil"] or [1] * n
+    inst["xs"] = [max(x, (k - 1) * d + 1) for x, k, d in zip(inst["xs"], inst["kernel"], dl)]      # the dilated kernel must fit
     inst["sym"] = rng.random() < 0.12          # one symbolic spatial input dim (near miss for SAME_*)
     inst["group"] = rng.choice([1, 1, 2]) if not inst["integer"] else 1
     inst["bias"] = (not inst["integer"]) and rng.random() < 0.4
@@ -386,9 +386,7 @@ def _norm_stream(ctx, mod, n_inst):
         meta.append(inst)
         direct += 1
         ctx.case(("compute_pads", ap, n, inst["dil_matters"]))
-    ok, di, df, raw = U.two_index_lists(ctx, ["OV.Rules.PadConv"],
-                                        f"Definition cases : list norm_case := {clist(cases)}.\n"
-                                        "Definition dis_impl := norm_dis false cases.\nDefinition dis_fixed := norm_dis true cases.")
+    ok, di, df, raw = U.eval_cases(ctx, ["OV.Rules.PadConv"], "norm_case", cases, "norm_dis")
     if not ok:
         ctx.tie_broken("correspondence", f"{FAM}:normalize:model-evaluation", raw[-800:])
         return
